@@ -19,6 +19,7 @@ import Proofs.Select
 import Proofs.SitesValid
 import Proofs.Ties
 import Proofs.TiesRun
+import Proofs.TiesMore
 namespace Coma.Props
 open Coma Coma.Spec
 
@@ -61,21 +62,21 @@ theorem C01_candidate_valid_partial (P : Params) (c : Seg) (cs out : List Seg) (
     coordinates (previous theorem) is a one-to-one collinear matching of real labels — reference
     numbers strictly ascending, query numbers strictly increasing for '+' / decreasing for '-' -/
 theorem C01_candidate_sites_valid_partial (P : Params) (C : ChainCfg) (hP : GoodParams P) (ref qry : OMap) (peaks : List Int)
-    (rev : Bool) (it : Int) (hr : StrictAscending ref.positions) (hq : StrictAscending qry.positions)
+    (rev : Bool) (it : Int) (hr : Ascending ref.positions) (hq : Ascending qry.positions)
     (row : Row) (h : alignerAlign P C ref qry peaks rev it = .ok row)
     (hasc : row.pairs.Pairwise (fun a b => a.r.pos < b.r.pos ∧ a.q.pos < b.q.pos)) :
     ValidMatching rev (sitePairs row.pairs) ∧
     (∀ p ∈ row.pairs, p.r ∈ ref.labels false ∧ p.q ∈ qry.labels rev) :=
-  Coma.Proofs.candidate_sites_valid P C hP ref qry peaks rev it hr hq row h hasc
+  Coma.Proofs.candidate_sites_valid_weak P C hP ref qry peaks rev it hr hq row h hasc
 
 /-- full strength for the common case: a candidate with at most one non-empty segment (one seed
     peak, or all but one segment dropped by the chainer) is ALWAYS a valid matching -/
 theorem C01_single_segment_valid (P : Params) (C : ChainCfg) (hP : GoodParams P) (ref qry : OMap) (peaks : List Int)
-    (rev : Bool) (it : Int) (hr : StrictAscending ref.positions) (hq : StrictAscending qry.positions)
+    (rev : Bool) (it : Int) (hr : Ascending ref.positions) (hq : Ascending qry.positions)
     (row : Row) (h : alignerAlign P C ref qry peaks rev it = .ok row)
     (h1 : (row.segments.filter (fun s => !s.items.isEmpty)).length ≤ 1) :
     ValidMatching rev (sitePairs row.pairs) :=
-  Coma.Proofs.candidate_single_segment_valid P C hP ref qry peaks rev it hr hq row h h1
+  Coma.Proofs.candidate_single_segment_valid_weak P C hP ref qry peaks rev it hr hq row h h1
 
 /-- the two refutations of the full claim are the C15 witnesses: (F6 / KF-b) the interior index
     merge leaves query label 2 in both segments … -/
